@@ -122,6 +122,40 @@ class Exec:
         self.client_timers = []          # [(time, seq, fn)] simulated-client timers
         if impl == 'thread':
             self.world.pick = self._pick
+        self.echo_n = 0
+        self.world.app_log.react = self._react
+
+    # -- things the application's message handler does itself ------------------------------------
+    def _react(self, event, sid, data):
+        """A message 'C<i>.<n>~!echo...' makes the handler send a reply to the same session before
+        it returns; 'C<i>.<n>~!bye...' makes it call disconnect(sid).  The model records them like
+        the corresponding application actions."""
+        if event != 'message' or not isinstance(data, str):
+            return []
+        m = re.match(r'C(\d+)\.(\d+)~!(echo|bye)', data)
+        if not m:
+            return []
+        o = self.ord_of_sid(sid)
+        s = next((x for x in self.sessions if x.ord == o), None)
+        if s is None:
+            return []
+        from .aworld import HandlerCall
+        if m.group(3) == 'echo':
+            self.echo_n += 1
+            reply = 'S%d.%d~re:%s' % (s.ord, 100000 + self.echo_n, m.group(2))
+            rec = HandlerCall('send', (sid, reply), self.now)
+            rec.sess = s
+            s.app_sent.append({'t': self.now, 'tag': find_tag(reply), 'data': reply, 'call': rec,
+                               'step': len(self.actions), 'target_state': None, 'settled': False,
+                               'after': set(x['tag'] for x in s.app_sent if x['call'].done),
+                               'upg_state': self.upg_state(s), 'in_handler': True,
+                               'poll_pending': any(not q.done for q in s.polls)})
+            return [('send', reply, rec)]
+        rec = HandlerCall('disconnect', (sid,), self.now)
+        rec.sess = s
+        s.causes.append({'t': self.now, 'cause': 'api', 'call': rec, 'step': len(self.actions),
+                         'det': None, 'in_handler': True})
+        return [('disconnect', rec)]
 
     # -- scheduling choices (thread world) ---------------------------------------------------
     def _pick(self, runnable):
@@ -948,8 +982,15 @@ def server_payload(draw, s_ord, seq):
     return tag.encode() + draw(st.binary(max_size=6))
 
 
-def client_payload(draw, s_ord, seq):
+def client_payload(draw, s_ord, seq, reactions=None):
     tag = 'C%d.%d~' % (s_ord, seq)
+    if reactions:
+        # messages the application's handler answers itself (see Exec._react)
+        k = draw(st.integers(0, 99))
+        for name, pct in reactions:
+            if k < pct:
+                return tag + '!' + name
+            k -= pct
     kind = draw(st.sampled_from(['text', 'text', 'json', 'bytes', 'jsontext', 'qtext', 'wide']))
     if kind == 'text':
         return tag + draw(text_suffix())
@@ -1062,7 +1103,7 @@ class Drawer:
                                                               ('noise', 0)]))
         if kind == 'msg':
             self.ex.cseq += 1
-            return [4, rm.tag(client_payload(d, s.ord, self.ex.cseq))]
+            return [4, rm.tag(client_payload(d, s.ord, self.ex.cseq, self.profile.get('reactions')))]
         if kind == 'pong':
             return [3, rm.tag(d(st.sampled_from([None, 'probe', 'x'])))]
         if kind == 'close':
